@@ -130,8 +130,8 @@ def derived_state_refresh(cls: ast.ClassDef, source_attr: str):
     -> (derived: {attr: (node, method)}, missing: [(method_node, assign_node, attr)])"""
     s_src = f"self.{source_attr}"
 
-    def mentions(e):
-        return any(isinstance(n, ast.Attribute) and src(n) == s_src for n in ast.walk(e))
+    def mentions(e, aliases=()):
+        return any((isinstance(n, ast.Attribute) and src(n) == s_src) or (isinstance(n, ast.Name) and n.id in aliases) for n in ast.walk(e))
 
     def self_attr(t):
         while isinstance(t, ast.Subscript):
@@ -143,8 +143,10 @@ def derived_state_refresh(cls: ast.ClassDef, source_attr: str):
     derived = {}
     methods = [st for st in cls.body if isinstance(st, ast.FunctionDef)]
     for m in methods:
+        aliases = {n.targets[0].id for n in ast.walk(m) if isinstance(n, ast.Assign) and isinstance(n.targets[0], ast.Name)
+                   and src(n.value) == s_src}
         for n in ast.walk(m):
-            if isinstance(n, ast.Assign) and mentions(n.value):
+            if isinstance(n, ast.Assign) and mentions(n.value, aliases):
                 for t in n.targets:
                     for el in (t.elts if isinstance(t, ast.Tuple) else [t]):
                         a = self_attr(el)
